@@ -76,6 +76,7 @@ class CallsMixin:
                 if isinstance(v.shape, ConcS) and isinstance(v.d, PyMap) and all(isinstance(x, str) for x in v.d.items):
                     kwargs.update(v.d.items)
                     kwargs["__starstar__"] = v
+                    kwargs["__present__"] = dict(v.d.present)
                 else:
                     raise OutOfSubset("**kwargs of non-concrete-key dict")
             else:
@@ -107,6 +108,11 @@ class CallsMixin:
         o = fv.d
         kwargs = dict(kwargs)
         starstar = kwargs.pop("__starstar__", None)
+        present = kwargs.pop("__present__", None)
+        if present:
+            if isinstance(o, type) and dataclasses.is_dataclass(o):
+                return self.instantiate_dataclass(o, args, kwargs, st, present=present)
+            raise OutOfSubset("**kwargs with conditionally present keys")
         if isinstance(o, SpecFn):
             return o.fn(self, st, *args, **kwargs)
         if isinstance(o, BuiltinMethod):
@@ -819,7 +825,7 @@ class CallsMixin:
             return V.vrec(sh, {k: self.as_sym(v) for k, v in obj.attrs.items()})
         return ov
 
-    def instantiate_dataclass(self, cls, args, kwargs, st):
+    def instantiate_dataclass(self, cls, args, kwargs, st, present=None):
         sh = self.shape_of_class(cls)
         flds = dataclasses.fields(cls)
         names = [f.name for f in flds]
@@ -841,6 +847,14 @@ class CallsMixin:
                 raise DeadPath()
             vals[k] = v
         for f in flds:
+            if present and f.name in present and f.name in vals:
+                # the keyword is passed only on some paths: otherwise the default applies
+                if f.default is dataclasses.MISSING:
+                    self.raise_side(st, "TypeError", z3.Not(present[f.name]))
+                else:
+                    sh_f = sh.fields[f.name]
+                    vals[f.name] = V.ite(present[f.name], V.coerce(self.as_sym(vals[f.name]), sh_f),
+                                         V.coerce(self.as_sym(self.lift(f.default)), sh_f))
             if f.name not in vals:
                 if f.default is not dataclasses.MISSING:
                     vals[f.name] = self.lift(f.default)
